@@ -561,13 +561,18 @@ def r12_free_shape(ctx, prog):
     # number of finite pixels: name bound to len(...isfinite...)
     cnt = [s_.targets[0].id for s_ in body if isinstance(s_, ast.Assign)
            and isinstance(s_.targets[0], ast.Name)
-           and isinstance(s_.value, ast.Call) and norm(s_.value.func) == "len"
+           and any(isinstance(c_, ast.Call) and
+                   norm(c_.func).split(".")[-1] in ("len", "count_nonzero",
+                                                    "sum")
+                   for c_ in ast.walk(s_.value))
            and "isfinite" in norm(s_.value)]
     flagv = sorted({(as_update(s_) or ("",))[0] for s_ in body
                     if isinstance(s_, (ast.Assign, ast.AugAssign))
                     and as_update(s_) and as_update(s_)[1] is ast.BitOr
                     and "flags." in as_update(s_)[2]})
+    from ..concrete import with_locals
     base = {"flags.FITERRSMALL": 1, "flags.FIXED2PSF": 4, "flags.NOTFIT": 16}
+    base = with_locals(fi.node, base)
     for f_ in flagv:
         base[f_] = 0
     n = 0
